@@ -166,11 +166,16 @@ func run(c *runner.Ctx) {
 		{Targets: []sm.Target{{Coll: "ARGS", Key: "a"}, {Coll: "ARGS_NAMES"}}, Op: "streq", Arg: "x"},
 		{Targets: []sm.Target{{Coll: "ARGS_POST"}, {Coll: "ARGS_GET", Rx: "^b"}}, Op: "contains", Arg: "x", Neg: true},
 		{Targets: []sm.Target{{Coll: "ARGS_GET", Count: true}}, Op: "eq", Arg: "1"},
+		// multiMatch after a rule with the same list: the operator must still see every intermediate value
+		{Targets: []sm.Target{{Coll: "ARGS_GET"}}, Op: "rx", Arg: "^X", Trans: []string{"uppercase", "lowercase"}, Multi: true},
+		{Targets: []sm.Target{{Coll: "ARGS"}}, Op: "streq", Arg: "X", Trans: []string{"lowercase", "trim", "uppercase"}, Multi: true},
 	}
 	first := []*sm.Rule{
 		{Targets: []sm.Target{{Coll: "ARGS"}}, Op: "streq", Arg: "x", Trans: []string{"lowercase", "trim"}},
 		{Targets: []sm.Target{{Coll: "ARGS_GET", Key: "A"}}, Op: "rx", Arg: "^x", Neg: true},
 		{Targets: []sm.Target{{Coll: "ARGS_NAMES"}}, Excls: []sm.Excl{{Coll: "ARGS_NAMES", Key: "b"}}, Op: "streq", Arg: "a", Trans: []string{"lowercase"}, Multi: true},
+		{Targets: []sm.Target{{Coll: "ARGS_GET"}}, Op: "rx", Arg: "^x", Trans: []string{"uppercase", "lowercase"}},
+		{Targets: []sm.Target{{Coll: "ARGS"}}, Op: "contains", Arg: "y", Trans: []string{"lowercase", "trim", "uppercase"}},
 	}
 	for _, f := range first {
 		for _, s := range second {
